@@ -194,7 +194,8 @@ class CryptDoc:
         opw = None if c["opw"] == "same" else PASSWORDS[c["opw"]]
         sec = E.StdSec(c["V"], c["R"], c["keylen"], c["cfm"], c["em"], p_value(c["perms"]), id0, upw, opw,
                        seed=self.seed)
-        ed = sec.encrypt_dict(p_unsigned=c.get("punsigned", False), length_entry=c.get("length_entry", True))
+        ed = sec.encrypt_dict(p_unsigned=c.get("punsigned", False), length_entry=c.get("length_entry", True),
+                              variant=c.get("dv", "plain"))
         log = []
         if c["encplace"] == "indirect":
             rev = self._revision({"Encrypt": Ref(16)}, {16: ed})
